@@ -30,13 +30,15 @@ namespace vt
     }
     struct SIBuf
     {
-        alignas(16) char buf[sizeof(ob::SpaceInformation)];
-        ob::SpaceInformation *si() { return reinterpret_cast<ob::SpaceInformation *>(buf); }
+        // typed storage whose constructor/destructor never run (a char buffer makes CBMC treat the members byte-wise)
+        union Store { ob::SpaceInformation si; char buf[sizeof(ob::SpaceInformation)]; Store() {} ~Store() {} } store;
+        char *bufp() { return store.buf; }
+        ob::SpaceInformation *si() { return &store.si; }
         // vtbl: &vt_vtbl_X[2] of SpaceInformation's vtable when the unit calls SpaceInformation's own virtual methods
         void init(ob::StateSpace *sp, ob::StateValidityChecker *svc, ob::MotionValidator *mv = nullptr, void **vtbl = nullptr)
         {
-            std::memset(buf, 0, sizeof buf);
-            *(void ***)buf = vtbl;
+            std::memset(store.buf, 0, sizeof store.buf);
+            *(void ***)store.buf = vtbl;
             set_raw(si()->stateSpace_, sp);
             set_raw(si()->stateValidityChecker_, svc);
             set_raw(si()->motionValidator_, mv);
